@@ -10,8 +10,11 @@ Reading of the property's text that the monitor fixes (see notes/C09.md):
 * the initial-padding granule of a block is a span reserved by the allocator: it counts as used memory in the statistics,
   `query` reports it as a one-granule span, nothing else may overlap it;
 * "reusable": a request may be answered from a NEW block only if no existing block of the pool that served it has a free
-  gap of the size that was handed out;
+  gap of the size that was handed out (a gap starts at the block's first byte or right behind an occupied range);
 * retention policy: at most one block without live spans per pool, none with kImmediateRelease, none after a hard reset.
+
+The monitor is written as plain `if … then .error … else …` chains over `List.all`/`List.any` so that
+`Props/C09.lean : model_accepted_by_spec` (every run of the model is accepted) can be proved.
 -/
 import AsmjitVerif.Model.JitAlloc
 namespace AsmjitVerif.JitAlloc.Spec
@@ -42,42 +45,38 @@ def Ghost.init (cfg : Config) : Ghost := { cfg }
 
 def Ghost.pad (g : Ghost) : Bool := !g.cfg.noPad
 def Ghost.liveIn (g : Ghost) (blk : Nat) : List GH := g.tab.filter fun x => x.live && x.blk == blk
-def Ghost.liveCount (g : Ghost) : Nat := (g.tab.filter (·.live)).length
+def Ghost.liveCount (g : Ghost) : Nat := g.tab.countP (·.live)
 def Ghost.block? (g : Ghost) (id : Nat) : Option GBlock := g.blocks.find? (·.id == id)
 
-def overlaps (o1 s1 o2 s2 : Nat) : Bool := o1 < o2 + s2 && o2 < o1 + s1
+def overlaps (o1 s1 o2 s2 : Nat) : Bool := decide (o1 < o2 + s2) && decide (o2 < o1 + s1)
 
-/-- occupied byte intervals of a block: live spans and the padding granule -/
+/-- occupied byte intervals of a block: the padding granule and the live spans -/
 def Ghost.occupied (g : Ghost) (b : GBlock) : List (Nat × Nat) :=
   let sp := (g.liveIn b.id).map fun x => (x.off, x.size)
   if g.pad then (0, g.cfg.poolGran b.pool) :: sp else sp
 
-/-- is there a free gap of `size` bytes in block `b`? -/
+/-- is there a free gap of `size` bytes in block `b` (starting at 0 or right behind an occupied interval)? -/
 def Ghost.hasGap (g : Ghost) (b : GBlock) (size : Nat) : Bool :=
-  let occ := (g.occupied b).mergeSort fun x y => x.1 ≤ y.1
-  let rec go : List (Nat × Nat) → Nat → Bool
-    | [], cur => decide (size ≤ b.size - cur)
-    | (o, s) :: rest, cur => decide (cur + size ≤ o) || go rest (max cur (o + s))
-  go occ 0
+  let occ := g.occupied b
+  (0 :: occ.map fun (o, s) => o + s).any fun c =>
+    decide (c + size ≤ b.size) && occ.all fun (o, s) => !overlaps c size o s
 
 def Ghost.emptyBlocks (g : Ghost) (p : Nat) : Nat :=
   (g.blocks.filter fun b => b.pool == p && (g.liveIn b.id).isEmpty).length
 
-def Ghost.expectedStats (g : Ghost) : Nat × Nat × Nat × Nat :=
-  let used := ((g.tab.filter (·.live)).map (·.size)).sum +
-              (g.blocks.map fun b => if g.pad then g.cfg.poolGran b.pool else 0).sum
-  (g.blocks.length, g.liveCount, used, (g.blocks.map (·.size)).sum)
+def Ghost.liveBytes (g : Ghost) : Nat := (g.tab.map fun x => if x.live then x.size else 0).sum
+def Ghost.padBytes (g : Ghost) : Nat := (g.blocks.map fun b => if g.pad then g.cfg.poolGran b.pool else 0).sum
+def Ghost.reserved (g : Ghost) : Nat := (g.blocks.map (·.size)).sum
 
 /-- statistics reflect exactly the ghost state; the retention policy holds -/
-def Ghost.checkStats (g : Ghost) (st : Stats) : Except String Unit := do
-  let (b, a, u, r) := g.expectedStats
-  if st.blocks ≠ b then throw s!"statistics: block_count {st.blocks}, {b} blocks are known"
-  if st.allocs ≠ a then throw s!"statistics: allocation_count {st.allocs}, {a} spans are live"
-  if st.used ≠ u then throw s!"statistics: used_size {st.used}, live spans + padding = {u}"
-  if st.reserved ≠ r then throw s!"statistics: reserved_size {st.reserved}, blocks sum to {r}"
-  let allowed := if g.cfg.immediate then 0 else 1
-  for p in List.range g.cfg.poolCount do
-    if g.emptyBlocks p > allowed then throw s!"retention: pool {p} keeps {g.emptyBlocks p} empty blocks, policy allows {allowed}"
+def Ghost.checkStats (g : Ghost) (st : Stats) : Except String Unit :=
+  if st.blocks ≠ g.blocks.length then .error s!"statistics: block_count {st.blocks}, {g.blocks.length} blocks are known"
+  else if st.allocs ≠ g.liveCount then .error s!"statistics: allocation_count {st.allocs}, {g.liveCount} spans are live"
+  else if st.used ≠ g.liveBytes + g.padBytes then .error s!"statistics: used_size {st.used}, live spans + padding = {g.liveBytes + g.padBytes}"
+  else if st.reserved ≠ g.reserved then .error s!"statistics: reserved_size {st.reserved}, blocks sum to {g.reserved}"
+  else if (List.range g.cfg.poolCount).any (fun p => decide (g.emptyBlocks p > (if g.cfg.immediate then 0 else 1))) then
+    .error s!"retention: more empty blocks are kept than the policy allows"
+  else .ok ()
 
 /-- a block that lost its last span may have been freed: the statistics tell -/
 def Ghost.afterRelease (g : Ghost) (blk : Nat) (st : Stats) : Ghost :=
@@ -85,186 +84,205 @@ def Ghost.afterRelease (g : Ghost) (blk : Nat) (st : Stats) : Ghost :=
 
 def setTab (tab : List GH) (h : Nat) (f : GH → GH) : List GH := tab.mapIdx fun i x => if i = h then f x else x
 
-/-- judge a freshly returned span -/
-def Ghost.checkNewSpan (g : Ghost) (req : Nat) (sp : SpanOut) (rwOff : Nat) (dual : Bool) : Except String Ghost := do
+/-- judge a freshly returned span; returns the ghost state with the block known -/
+def Ghost.checkNewSpan (g : Ghost) (req : Nat) (sp : SpanOut) (rwOff : Nat) (dual : Bool) : Except String Ghost :=
   let gp := g.cfg.poolGran sp.pool
-  if sp.size < req then throw s!"span smaller than requested ({sp.size} < {req})"
-  if sp.off % g.cfg.gran ≠ 0 then throw s!"span not aligned to the granularity (offset {sp.off})"
-  if sp.size % g.cfg.gran ≠ 0 then throw s!"span size {sp.size} not a multiple of the granularity"
-  if rwOff ≠ sp.off then throw "rx and rw views at different offsets"
-  if dual ≠ g.cfg.dual then throw "mapping kind differs from the configuration"
-  if sp.pool ≥ g.cfg.poolCount then throw "unknown pool"
-  if sp.off + sp.size > sp.blockSize then throw "span leaves its block"
-  let g ← match g.block? sp.blk with
-    | some b =>
-      if b.pool ≠ sp.pool || b.size ≠ sp.blockSize then throw "block changed pool or size"
-      pure g
+  if sp.size < req then .error s!"span smaller than requested ({sp.size} < {req})"
+  else if sp.off % g.cfg.gran ≠ 0 then .error s!"span not aligned to the granularity (offset {sp.off})"
+  else if sp.size % g.cfg.gran ≠ 0 then .error s!"span size {sp.size} not a multiple of the granularity"
+  else if rwOff ≠ sp.off then .error "rx and rw views at different offsets"
+  else if dual ≠ g.cfg.dual then .error "mapping kind differs from the configuration"
+  else if sp.pool ≥ g.cfg.poolCount then .error "unknown pool"
+  else if sp.off + sp.size > sp.blockSize then .error "span leaves its block"
+  else if g.pad && decide (sp.off < gp) then .error "span overlaps the padding granule"
+  else if (g.liveIn sp.blk).any (fun x => overlaps sp.off sp.size x.off x.size) then
+    .error s!"span [{sp.off},+{sp.size}) overlaps a live span in b{sp.blk}"
+  else
+    match g.block? sp.blk with
+    | some b => if b.pool ≠ sp.pool || b.size ≠ sp.blockSize then .error "block changed pool or size" else .ok g
     | none =>
       -- new block: only legitimate when no existing block of the pool has room (released memory is reusable)
-      for b in g.blocks do
-        if b.pool == sp.pool && g.hasGap b ((sp.size + gp - 1) / gp * gp) then
-          throw s!"free memory not reused: block b{b.id} has a gap of {sp.size} bytes but a new block was mapped"
-      if g.blocks.any (·.id == sp.blk) then throw "block id reused"
-      pure { g with blocks := g.blocks ++ [{ id := sp.blk, pool := sp.pool, size := sp.blockSize }] }
-  if g.pad && sp.off < gp then throw "span overlaps the padding granule"
-  for x in g.liveIn sp.blk do
-    if overlaps sp.off sp.size x.off x.size then throw s!"span [{sp.off},+{sp.size}) overlaps live span [{x.off},+{x.size}) in b{sp.blk}"
-  pure g
+      if g.blocks.any (fun b => b.pool == sp.pool && g.hasGap b ((sp.size + gp - 1) / gp * gp)) then
+        .error s!"free memory not reused: a block of pool {sp.pool} has a gap of {sp.size} bytes but a new block was mapped"
+      else .ok { g with blocks := g.blocks ++ [{ id := sp.blk, pool := sp.pool, size := sp.blockSize }] }
 
-/-- expected colour of every granule of block `b` (`none` = unconstrained) -/
-def Ghost.expectedColours (g : Ghost) (b : GBlock) : List (Option Nat) :=
+/-- expected colour of granule `i` of block `b` (`none` = unconstrained) -/
+def Ghost.expectedColour (g : Ghost) (b : GBlock) (i : Nat) : Option Nat :=
   let gp := g.cfg.poolGran b.pool
-  let base : List (Option Nat) := List.replicate (b.size / gp) (if g.cfg.fillUnused then some (patColour g.cfg) else none)
-  (g.liveIn b.id).foldl (fun acc x =>
-    match x.tag with
-    | some t => setRange acc (x.off / gp) ((x.off + x.size) / gp) (some t)
-    | none => if g.cfg.fillUnused then acc else setRange acc (x.off / gp) ((x.off + x.size) / gp) none) base
+  let free : Option Nat := if g.cfg.fillUnused then some (patColour g.cfg) else none
+  match (g.liveIn b.id).find? (fun x => decide (x.off ≤ i * gp) && decide (i * gp < x.off + x.size)) with
+  | some x => (match x.tag with | some t => some t | none => free)
+  | none => free
 
 def unrle (cs : List (Nat × Nat)) : List Nat := cs.flatMap fun (c, k) => List.replicate k c
 
-def coloursOk : List (Option Nat) → List Nat → Bool
-  | [], [] => true
-  | e :: es, c :: cs => (match e with | some x => x == c | none => true) && coloursOk es cs
-  | _, _ => false
+/-- colours `cs` of the granules `start, start+1, …` of block `b` agree with the expectation -/
+def Ghost.coloursOk (g : Ghost) (b : GBlock) (start : Nat) (cs : List Nat) : Bool :=
+  cs.zipIdx.all fun (c, k) => match g.expectedColour b (start + k) with | some x => x == c | none => true
 
-/-- spans `query` must report over a block: live spans and the padding granule, in address order (granule units) -/
-def Ghost.expectedSweep (g : Ghost) (b : GBlock) : List (Nat × Nat) :=
+/-- spans `query` must report over a block: the padding granule and the live spans (granule units) -/
+def Ghost.occupiedG (g : Ghost) (b : GBlock) : List (Nat × Nat) :=
   let gp := g.cfg.poolGran b.pool
-  ((g.occupied b).map fun (o, s) => (o / gp, s / gp)).mergeSort fun x y => x.1 ≤ y.1
+  (g.occupied b).map fun (o, s) => (o / gp, s / gp)
+
+/-- reported spans are in address order and do not overlap -/
+def increasing : List (Nat × Nat) → Bool
+  | [] => true
+  | [_] => true
+  | x :: y :: r => decide (x.1 + x.2 ≤ y.1) && increasing (y :: r)
+
+/-- the sweep reports exactly the occupied intervals: in order, each one, nothing else -/
+def Ghost.sweepOk (g : Ghost) (b : GBlock) (sp : List (Nat × Nat)) : Bool :=
+  increasing sp && sp.all (fun x => (g.occupiedG b).contains x) && (g.occupiedG b).all (fun x => sp.contains x)
 
 /-- the span (live or padding) that contains byte `addr` of block `blk` -/
 def Ghost.spanAt (g : Ghost) (blk addr : Nat) : Option (Nat × Nat) :=
   match g.block? blk with
   | none => none
-  | some b => (g.occupied b).find? fun (o, s) => o ≤ addr && addr < o + s
+  | some b => (g.occupied b).find? fun (o, s) => decide (o ≤ addr) && decide (addr < o + s)
 
-def maxRequest : Nat := 2147483647
+def deadGH : GH := { live := false, blk := 0, off := 0, size := 0, tag := none }
 
-/-- one step of the monitor: the operation, the allocator's answer (span answers come with rw offset and mapping kind), statistics -/
-def mstep (g : Ghost) (op : Op) (ans : Ans) (rwOff : Nat) (dual : Bool) (st : Stats) : Except String Ghost := do
-  let dead : GH := { live := false, blk := 0, off := 0, size := 0, tag := none }
-  let g ← (match op, ans with
-    | .alloc req, .span sp => do
-      if req = 0 then throw "alloc(0) succeeded"
-      let g ← g.checkNewSpan req sp rwOff dual
-      pure { g with tab := g.tab ++ [{ live := true, blk := sp.blk, off := sp.off, size := sp.size, tag := none }] }
-    | .alloc req, .err _ =>
-      if 1 ≤ req && req ≤ 1073741824 then throw s!"alloc({req}) failed"
-      else pure { g with tab := g.tab ++ [dead] }
-    | .release h, a =>
-      match g.tab[h]? with
-      | some x =>
-        if x.live then
-          match a with
-          | .ok => pure ({ g with tab := setTab g.tab h fun x => { x with live := false } }.afterRelease x.blk st)
-          | _ => throw "release of a live span was refused"
-        else if a matches .dead then pure g else throw "protocol: release of a dead handle"
-      | none => if a matches .dead then pure g else throw "protocol: release of an unknown handle"
-    | .shrink h newSize, a | .wtrunc h _ newSize, a =>
-      match g.tab[h]? with
-      | some x =>
-        if !x.live then (if a matches .dead then pure g else throw "protocol: shrink of a dead handle") else
-        let x := match op with | .wtrunc _ byte _ => { x with tag := some (byte % 256) } | _ => x
-        let g := { g with tab := setTab g.tab h fun _ => x }
-        let isW := match op with | .wtrunc .. => true | _ => false
-        if isW && newSize ≥ x.size then
-          (match a with | .size n => if n = x.size then pure g else throw "write without truncation changed the span size" | _ => throw "write was refused")
-        else if newSize = 0 then
-          match a with
-          | .size 0 => pure ({ g with tab := setTab g.tab h fun x => { x with live := false } }.afterRelease x.blk st)
-          | _ => throw "shrink to 0 did not release the span"
-        else if newSize > x.size then
-          match a with
-          | .err _ => pure g
-          | _ => throw "shrink to a larger size was accepted"
-        else
-          match a with
-          | .size n =>
-            if n < newSize then throw s!"shrunk span smaller than requested ({n} < {newSize})"
-            else if n > x.size then throw "shrink enlarged the span"
-            else if n % g.cfg.gran ≠ 0 then throw "shrunk size not a multiple of the granularity"
-            else pure { g with tab := setTab g.tab h fun x => { x with size := n } }
-          | _ => throw "shrink of a live span was refused"
-      | none => if a matches .dead then pure g else throw "protocol: unknown handle"
-    | .query h byteOff, a =>
-      match g.tab[h]? with
-      | some x =>
-        match a with
+def Ghost.kill (g : Ghost) (h : Nat) : Ghost := { g with tab := setTab g.tab h fun x => { x with live := false } }
+
+/-- shrink-like answers (shrink, write-with-truncation after the tag update) -/
+def Ghost.judgeShrink (g : Ghost) (h : Nat) (x : GH) (isW : Bool) (newSize : Nat) (a : Ans) (st : Stats) : Except String Ghost :=
+  if isW && decide (newSize ≥ x.size) then
+    (match a with
+     | .size n => if n = x.size then .ok g else .error "write without truncation changed the span size"
+     | _ => .error "write was refused")
+  else if newSize = 0 then
+    (match a with
+     | .size 0 => .ok ((g.kill h).afterRelease x.blk st)
+     | _ => .error "shrink to 0 did not release the span")
+  else if newSize > x.size then
+    (match a with
+     | .err _ => .ok g
+     | _ => .error "shrink to a larger size was accepted")
+  else
+    (match a with
+     | .size n =>
+       if n < newSize then .error s!"shrunk span smaller than requested ({n} < {newSize})"
+       else if n > x.size then .error "shrink enlarged the span"
+       else if n % g.cfg.gran ≠ 0 then .error "shrunk size not a multiple of the granularity"
+       else .ok { g with tab := setTab g.tab h fun x => { x with size := n } }
+     | _ => .error "shrink of a live span was refused")
+
+/-- one step of the monitor without the statistics check -/
+def judge (g : Ghost) (op : Op) (ans : Ans) (rwOff : Nat) (dual : Bool) (st : Stats) : Except String Ghost :=
+  match op, ans with
+  | .alloc req, .span sp =>
+    if req = 0 then .error "alloc(0) succeeded"
+    else match g.checkNewSpan req sp rwOff dual with
+      | .ok g => .ok { g with tab := g.tab ++ [{ live := true, blk := sp.blk, off := sp.off, size := sp.size, tag := none }] }
+      | .error e => .error e
+  | .alloc req, .err _ =>
+    if decide (1 ≤ req) && decide (req ≤ 1073741824) then .error s!"alloc({req}) failed"
+    else .ok { g with tab := g.tab ++ [deadGH] }
+  | .release h, a =>
+    (match g.tab[h]? with
+     | some x =>
+       if x.live then
+         (match a with
+          | .ok => .ok ((g.kill h).afterRelease x.blk st)
+          | _ => .error "release of a live span was refused")
+       else (match a with | .dead => .ok g | _ => .error "protocol: release of a dead handle")
+     | none => (match a with | .dead => .ok g | _ => .error "protocol: release of an unknown handle"))
+  | .shrink h newSize, a =>
+    (match g.tab[h]? with
+     | some x =>
+       if !x.live then (match a with | .dead => .ok g | _ => .error "protocol: shrink of a dead handle")
+       else g.judgeShrink h x false newSize a st
+     | none => (match a with | .dead => .ok g | _ => .error "protocol: unknown handle"))
+  | .wtrunc h byte newSize, a =>
+    (match g.tab[h]? with
+     | some x =>
+       if !x.live then (match a with | .dead => .ok g | _ => .error "protocol: write to a dead handle")
+       else
+         let x' : GH := { x with tag := some (byte % 256) }
+         ({ g with tab := setTab g.tab h fun _ => x' } : Ghost).judgeShrink h x' true newSize a st
+     | none => (match a with | .dead => .ok g | _ => .error "protocol: unknown handle"))
+  | .query h byteOff, a =>
+    (match g.tab[h]? with
+     | some x =>
+       (match a with
         | .span sp =>
-          match g.spanAt x.blk (x.off + byteOff) with
-          | some (o, s) =>
-            if sp.blk = x.blk && sp.off = o && sp.size = s && rwOff = o then pure g
-            else throw s!"query answers [{sp.off},+{sp.size}) of b{sp.blk}, the span there is [{o},+{s}) of b{x.blk}"
-          | none => throw s!"query accepted an address that is in no live span (b{x.blk}+{x.off + byteOff})"
+          (match g.spanAt x.blk (x.off + byteOff) with
+           | some (o, s) =>
+             if sp.blk = x.blk && sp.off = o && sp.size = s && rwOff = o then .ok g
+             else .error s!"query answers [{sp.off},+{sp.size}) of b{sp.blk}, the span there is [{o},+{s}) of b{x.blk}"
+           | none => .error s!"query accepted an address that is in no live span (b{x.blk}+{x.off + byteOff})")
         | .err _ =>
-          match g.spanAt x.blk (x.off + byteOff) with
-          | some (o, s) => throw s!"query rejected an address inside the live span [{o},+{s}) of b{x.blk}"
-          | none => pure g
-        | .gone | .oob | .dead => pure g
-        | _ => throw "protocol: query answer"
-      | none => if a matches .dead then pure g else throw "protocol: unknown handle"
-    | .sstale _ _, a =>
-      match a with
-      | .ok => throw "shrink through a stale span (released allocation) was accepted"
-      | .size _ => throw "shrink through a stale span (released allocation) was accepted"
-      | _ => pure g
-    | .write h byte, a =>
-      match g.tab[h]? with
-      | some x =>
-        if x.live then
-          match a with
-          | .ok => pure { g with tab := setTab g.tab h fun x => { x with tag := some (byte % 256) } }
-          | _ => throw "write to a live span was refused"
-        else if a matches .dead then pure g else throw "protocol: write to a dead handle"
-      | none => if a matches .dead then pure g else throw "protocol: unknown handle"
-    | .read h, a =>
-      match g.tab[h]?, a with
-      | some x, .colours cs =>
-        if !x.live then throw "protocol: read of a dead handle" else
-        match g.block? x.blk with
-        | none => throw "live span in an unknown block"
+          (match g.spanAt x.blk (x.off + byteOff) with
+           | some (o, s) => .error s!"query rejected an address inside the live span [{o},+{s}) of b{x.blk}"
+           | none => .ok g)
+        | .gone => .ok g | .oob => .ok g | .dead => .ok g
+        | _ => .error "protocol: query answer")
+     | none => (match a with | .dead => .ok g | _ => .error "protocol: unknown handle"))
+  | .sstale _ _, a =>
+    (match a with
+     | .ok => .error "shrink through a stale span (released allocation) was accepted"
+     | .size _ => .error "shrink through a stale span (released allocation) was accepted"
+     | _ => .ok g)
+  | .write h byte, a =>
+    (match g.tab[h]? with
+     | some x =>
+       if x.live then
+         (match a with
+          | .ok => .ok { g with tab := setTab g.tab h fun x => { x with tag := some (byte % 256) } }
+          | _ => .error "write to a live span was refused")
+       else (match a with | .dead => .ok g | _ => .error "protocol: write to a dead handle")
+     | none => (match a with | .dead => .ok g | _ => .error "protocol: unknown handle"))
+  | .read h, a =>
+    (match g.tab[h]?, a with
+     | some x, .colours cs =>
+       if !x.live then .error "protocol: read of a dead handle" else
+       (match g.block? x.blk with
+        | none => .error "live span in an unknown block"
         | some b =>
           let gp := g.cfg.poolGran b.pool
-          let exp := ((g.expectedColours b).drop (x.off / gp)).take (x.size / gp)
-          if coloursOk exp (unrle cs) then pure g else throw s!"contents of live span h{h} changed (or free memory without fill pattern)"
-      | _, .dead => pure g
-      | _, _ => throw "protocol: read answer"
-    | .mem, .memAll bs =>
-      if bs.map (·.1) ≠ g.blocks.map (·.id) then throw "mem: block list differs from the known blocks" else do
-      for (b, cs) in g.blocks.zip (bs.map (·.2)) do
-        if !coloursOk (g.expectedColours b) (unrle cs) then
-          throw s!"memory of b{b.id}: a live span lost its contents or reusable memory does not carry the fill pattern"
-      pure g
-    | .sweep, .sweepAll bs =>
-      if bs.map (·.1) ≠ g.blocks.map (·.id) then throw "sweep: block list differs from the known blocks" else do
-      for (b, sp) in g.blocks.zip (bs.map (·.2)) do
-        if sp ≠ g.expectedSweep b then throw s!"query sweep of b{b.id} does not report exactly the live spans"
-      pure g
-    | .blocks, .blockList bs =>
-      if bs = g.blocks.map (fun b => (b.id, b.pool, b.size, g.pad)) then pure g else throw "block list differs from the known blocks"
-    | .dump, _ => pure g
-    | .reset hard, .blockList bs => do
-      let keep := if hard || g.cfg.immediate then 0 else 1
-      for (id, p, sz, _) in bs do
-        if !(g.blocks.any fun b => b.id == id && b.pool == p && b.size == sz) then throw "reset: unknown block survives"
-      for p in List.range g.cfg.poolCount do
-        if (bs.filter fun x => x.2.1 == p).length > keep then throw s!"reset: pool {p} keeps more blocks than the policy allows"
-      pure { g with tab := g.tab.map fun _ => dead, blocks := bs.map fun (id, p, sz, _) => { id, pool := p, size := sz } }
-    | .isinit, .flag b => if b then pure g else throw "is_initialized() is false for a working allocator"
-    | .rforeign _, a | .qforeign _, a | .sforeign, a =>
-      match a with
-      | .err _ => pure g
-      | _ => throw "foreign pointer accepted"
-    | _, _ => throw "protocol: unexpected answer")
-  g.checkStats st
-  pure g
+          if (unrle cs).length = x.size / gp && g.coloursOk b (x.off / gp) (unrle cs) then .ok g
+          else .error s!"contents of live span h{h} changed (or free memory without fill pattern)")
+     | _, .dead => .ok g
+     | _, _ => .error "protocol: read answer")
+  | .mem, .memAll bs =>
+    if bs.map (·.1) ≠ g.blocks.map (·.id) then .error "mem: block list differs from the known blocks"
+    else if (g.blocks.zip (bs.map (·.2))).all (fun (b, cs) =>
+        (unrle cs).length == b.size / g.cfg.poolGran b.pool && g.coloursOk b 0 (unrle cs)) then .ok g
+    else .error "memory: a live span lost its contents or reusable memory does not carry the fill pattern"
+  | .sweep, .sweepAll bs =>
+    if bs.map (·.1) ≠ g.blocks.map (·.id) then .error "sweep: block list differs from the known blocks"
+    else if (g.blocks.zip (bs.map (·.2))).all (fun (b, sp) => g.sweepOk b sp) then .ok g
+    else .error "query sweep does not report exactly the live spans"
+  | .blocks, .blockList bs =>
+    if bs = g.blocks.map (fun b => (b.id, b.pool, b.size, g.pad)) then .ok g else .error "block list differs from the known blocks"
+  | .dump, _ => .ok g
+  | .reset hard, .blockList bs =>
+    if !(bs.all fun (id, p, sz, _) => g.blocks.any fun b => b.id == id && b.pool == p && b.size == sz) then
+      .error "reset: unknown block survives"
+    else if (List.range g.cfg.poolCount).any (fun p =>
+        decide ((bs.filter fun x => x.2.1 == p).length > (if hard || g.cfg.immediate then 0 else 1))) then
+      .error "reset: a pool keeps more blocks than the policy allows"
+    else .ok { g with tab := g.tab.map fun _ => deadGH, blocks := bs.map fun (id, p, sz, _) => { id, pool := p, size := sz } }
+  | .isinit, .flag b => if b then .ok g else .error "is_initialized() is false for a working allocator"
+  | .rforeign _, a => (match a with | .err _ => .ok g | _ => .error "foreign pointer accepted")
+  | .qforeign _, a => (match a with | .err _ => .ok g | _ => .error "foreign pointer accepted")
+  | .sforeign, a => (match a with | .err _ => .ok g | _ => .error "foreign pointer accepted")
+  | _, _ => .error "protocol: unexpected answer"
 
-/-- the monitor over a whole trace; `none` = property holds on the trace -/
+/-- one step of the monitor: the operation, the allocator's answer (span answers come with rw offset and mapping kind), statistics -/
+def mstep (g : Ghost) (op : Op) (ans : Ans) (rwOff : Nat) (dual : Bool) (st : Stats) : Except String Ghost :=
+  match judge g op ans rwOff dual st with
+  | .ok g' => (match g'.checkStats st with | .ok _ => .ok g' | .error e => .error e)
+  | .error e => .error e
+
+/-- the monitor over a whole trace of a single-mapping or dual-mapping allocator whose rw view has the rx offsets;
+`none` = the property holds on the trace -/
 def monitor (g : Ghost) : List (Op × Ans × Stats) → Option String
   | [] => none
   | (op, ans, st) :: rest =>
-    let (rw, dual) := match ans with | .span sp => (sp.off, g.cfg.dual) | _ => (0, false)
-    match mstep g op ans rw dual st with
+    let rw := match ans with | .span sp => sp.off | _ => 0
+    match mstep g op ans rw g.cfg.dual st with
     | .ok g' => monitor g' rest
     | .error e => some e
 
